@@ -50,6 +50,12 @@ def items(tier):
     sents = gen.fo_sentences((gen.NEG, gen.NEC), (gen.AND, gen.BC), 1, consts=(a, b), preds=(F,), binpreds=(R,), ident=True, vars=(x, y), extra_leaves=(gen.A, gen.B))
     sents += gen.fo_sentences((gen.NEG,), (gen.AND,), 0, consts=(a, b), preds=(F,), binpreds=(R,), ident=True, vars=(x, y), extra_leaves=(gen.A, gen.B))
     sents += gen.fo_sentences((gen.NEG,), (gen.OR,), 2, consts=(a,), preds=(F,), vars=(x, y))[:: (4 if tier == 'quick' else 1)]
+    # one predicate symbol at three arities, the shorter parameter lists prefixes of the longer
+    c3 = G.Constant(2, 0)
+    for ar, params in ((1, (a,)), (2, (a, b)), (3, (a, b, c3))):
+        P = G.Predicate((0, 0, ar))
+        sents += [G.Predicated(P, params), ~G.Predicated(P, params), G.Predicated(P, params) & gen.A,
+                  G.Quantified(G.Quantifier.Universal, x, G.Predicated(P, (x,) + params[1:]))]
     # same quantifier and body, different binder (vacuous binders included)
     Fa = G.Predicated(F, (a,))
     Rxy = G.Predicated(R, (x, y))
@@ -152,6 +158,20 @@ def _single_task(task):
                 continue
             if y != x or skey(y) != k or hash(y) != hash(x):
                 viol('rebuild-' + label, x, f'rebuilding through {label} gives {y!r}')
+        # rebuilding through an abstract class of the wrong category must be refused, cached or not
+        for cls in (G.Sentence, G.Parameter):
+            if isinstance(x, (G.Operator, G.Quantifier)) or isinstance(x, cls):
+                continue
+            for attempt in (0, 1):
+                try:
+                    y = cls(x.ident)
+                except (TypeError, ValueError):
+                    continue
+                except Exception as e:
+                    viol('wrong-category', x, f'{cls.__name__}(ident of a {type(x).__name__}) raised {type(e).__name__}: {e}')
+                    break
+                viol('wrong-category', x, f'{cls.__name__}({x.ident!r}) returned {y!r}, which is not a {cls.__name__}')
+                break
         if isinstance(x, G.Sentence):
             try:
                 if G.Sentence(x.ident) != x:
